@@ -209,11 +209,11 @@ class Line(LineData, Model):
                               v1 * v2 * (ghk * sin(a1 - a2 - phi) - \
                                          bhk * cos(a1 - a2 - phi)) * itap)'
 
-        self.a2.e_str = 'u * (v2 ** 2 * (gh + ghk) - \
+        self.a2.e_str = 'u * (v2 ** 2 * (gk + ghk) - \
                               v1 * v2 * (ghk * cos(a1 - a2 - phi) - \
                                          bhk * sin(a1 - a2 - phi)) * itap)'
 
-        self.v2.e_str = 'u * (-v2 ** 2 * (bh + bhk) + \
+        self.v2.e_str = 'u * (-v2 ** 2 * (bk + bhk) + \
                               v1 * v2 * (ghk * sin(a1 - a2 - phi) + \
                                          bhk * cos(a1 - a2 - phi)) * itap)'
 
